@@ -18,7 +18,7 @@ include!("@VERIF@/contracts/_common/common.rs");
 use ufp::{dec as udec, enc as uenc};
 pub mod ufp {
     use super::*;
-    pub const MAXC: usize = 40;
+    pub const MAXC: usize = 16;
     pub static mut K: [[u64; 16]; MAXC] = [[0; 16]; MAXC];
     pub static mut X: [u64; MAXC] = [0; MAXC];
     pub static mut Y: [u64; MAXC] = [0; MAXC];
@@ -275,14 +275,73 @@ fn l_two_key_is_three_key() {
     assert!(eq16(&a.d1.keys, &b.d1.keys) && eq16(&a.d2.keys, &b.d2.keys) && eq16(&a.d1.keys, &b.d3.keys));
 }
 
+
+/// Pointer-keyed variant of `ufp`: each Des *object* gets its own uninterpreted inverse pair (two objects holding equal
+/// subkeys are treated as unrelated functions: an over-approximation, sound for the plumbing obligations below, and
+/// much cheaper than comparing sixteen subkeys per table row).
+pub mod ufq {
+    use super::*;
+    pub const MAXC: usize = 32;
+    pub static mut K: [usize; MAXC] = [0; MAXC];
+    pub static mut X: [u64; MAXC] = [0; MAXC];
+    pub static mut Y: [u64; MAXC] = [0; MAXC];
+    pub static mut N: usize = 0;
+    #[allow(static_mut_refs)]
+    pub fn enc(d: &Des, x: u64) -> u64 {
+        let k = d as *const Des as usize;
+        unsafe {
+            let mut y: u64 = kani::any();
+            let mut found = false;
+            let mut i = 0;
+            while i < N {
+                if K[i] == k && !found && X[i] == x { y = Y[i]; found = true; }
+                i += 1;
+            }
+            if !found {
+                let mut i = 0;
+                while i < N {
+                    if K[i] == k { kani::assume(Y[i] != y); }
+                    i += 1;
+                }
+            }
+            assert!(N < MAXC);
+            K[N] = k; X[N] = x; Y[N] = y; N += 1;
+            y
+        }
+    }
+    #[allow(static_mut_refs)]
+    pub fn dec(d: &Des, y: u64) -> u64 {
+        let k = d as *const Des as usize;
+        unsafe {
+            let mut x: u64 = kani::any();
+            let mut found = false;
+            let mut i = 0;
+            while i < N {
+                if K[i] == k && !found && Y[i] == y { x = X[i]; found = true; }
+                i += 1;
+            }
+            if !found {
+                let mut i = 0;
+                while i < N {
+                    if K[i] == k { kani::assume(X[i] != x); }
+                    i += 1;
+                }
+            }
+            assert!(N < MAXC);
+            K[N] = k; X[N] = x; Y[N] = y; N += 1;
+            x
+        }
+    }
+}
+
 // C04 / C05 for the Triple-DES types through separate input and output buffers (block-mode crates call them this way):
 // encrypt_block_b2b / decrypt_block_b2b and the n-block forms equal the in-place results, the input is untouched and
 // guard blocks around the output survive.  Des::{encrypt,decrypt}: the uninterpreted inverse pair.
 macro_rules! tdes_b2b {
     ($name:ident, $mk:expr) => {
         #[kani::proof]
-        #[kani::stub(Des::encrypt, ufp::enc)]
-        #[kani::stub(Des::decrypt, ufp::dec)]
+        #[kani::stub(Des::encrypt, ufq::enc)]
+        #[kani::stub(Des::decrypt, ufq::dec)]
         #[kani::unwind(65)]
         fn $name() {
             let t = $mk;
